@@ -3,7 +3,7 @@
    one line per operation. *)
 From NV Require Import Base.Util Base.Sexp Base.IntTy Base.FloatBits Base.Float Base.Expr
      Macro.Surface Macro.Ast Macro.Parse Macro.Validate Macro.Messages Macro.Inventory Macro.GenTests
-     Sem.Guard Sem.Value Sem.Eval Sem.Conv Sem.Text Sem.Json Sem.Bytes Sem.ArbInt Sem.ArbStr Sem.ArbStrDecide Sem.ArbFloat Sem.ArbFloatDecide Sem.Order Spec.GuardSpec Spec.Reference Run.Lib Run.Decode.
+     Sem.Guard Sem.Value Sem.Eval Sem.Conv Sem.Text Sem.Json Sem.MsgPack Sem.Bytes Sem.ArbInt Sem.ArbStr Sem.ArbStrDecide Sem.ArbFloat Sem.ArbFloatDecide Sem.Order Spec.GuardSpec Spec.Reference Run.Lib Run.Decode.
 From NV.Unicode Require UnicodeData UStr.
 Local Open Scope string_scope.
 
@@ -65,6 +65,29 @@ Definition run_op (d : decl) (op : sexp) : string :=
           | _ => "na"
           end
       | _ => "bad_value" end
+  | L (A "de_mp_t" :: bs) =>
+      (* the MessagePack document itself: the model reads it (Sem/MsgPack) for String newtypes and for
+         integer newtypes up to 64 bits *)
+      match omap as_N bs with
+      | Some doc =>
+          match d_family d with
+          | FStr => pr_outcome (op_deserialize lib d (mp_de_inner (d_family d) doc))
+          | FInt _ t => if (bits t <=? 64)%Z then pr_outcome (op_deserialize lib d (mp_de_inner (d_family d) doc)) else "na"
+          | _ => "na"
+          end
+      | None => "bad_value" end
+  | L [A "ser_mp_t"; v] =>
+      match dec_value v with
+      | Some v =>
+          if has_trait TrSerialize (d_traits d) then
+            match d_family d, construct lib d v with
+            | FStr, OOk x => pr_list "b" (map string_of_N (mp_ser_inner x))
+            | FInt _ t, OOk x => if (bits t <=? 64)%Z then pr_list "b" (map string_of_N (mp_ser_inner x)) else "na"
+            | (FStr | FInt _ _), _ => "rejected"
+            | _, _ => "na"
+            end
+          else "na"
+      | None => "bad_value" end
   | L [A "ser_json_t"; v] =>
       match dec_value v with
       | Some v =>
